@@ -543,10 +543,16 @@ pub fn eval(inp: &Input) -> Out {
 }
 
 fn connack_probes(case: &Case, trace: &Trace, view: &View, props: &[Prop], probe: u8, local_window: u32, v: &mut Vec<Violation>, bytes: &[u8]) {
+    if probe != 1 && props.iter().any(|p| matches!(p, Prop::MaximumPacketSize(m) if *m < 16)) {
+        return; // the probe publishes themselves would be too large for this broker
+    }
     match probe {
         0 => {
             if props.iter().any(|p| matches!(p, Prop::MaximumQoS(0))) {
                 return; // QoS 1 probes are downgraded to QoS 0 and do not use the window
+            }
+            if props.iter().any(|p| matches!(p, Prop::MaximumPacketSize(m) if *m < 16)) {
+                return; // the probe publishes themselves would be too large
             }
             let rm = props.iter().find_map(|p| if let Prop::ReceiveMaximum(m) = p { Some(*m as u32) } else { None }).unwrap_or(65535);
             let accepted = trace.ops.iter().take_while(|o| matches!(o.res, OpRes::Handle(_))).count() as u32;
